@@ -168,6 +168,16 @@ package scanner
 //@   ensures [unit] len(s.unitVal) <= s.offset - old(s.offset) && s.unitVal == string(s.src[s.offset-len(s.unitVal):s.offset])
 //@   ensures [text] result1 == string(s.src[old(s.offset):s.offset-len(s.unitVal)])
 //@   ensures [kind] result0 == token.INT || result0 == token.FLOAT || result0 == token.IMAG || result0 == token.RAT
+//@   # every error of a number literal is reported only in its own situation and at its own offset (C16: go/scanner's
+//@   # scanNumber carries the same clauses; a dropped report makes the clause's site disappear and is reported too)
+//@   at call error#1 assert [err-radix-point] (prefix == 'o' || prefix == 'b') && s.ch == '.' && arg1 == s.offset
+//@   at call error#2 assert [err-no-digits] digsep & 1 == 0 && arg1 == s.offset
+//@   at call errorf#1 assert [err-e-exponent] (s.ch == 'e' || s.ch == 'E') && prefix != 0 && prefix != '0' && arg1 == s.offset
+//@   at call errorf#2 assert [err-p-exponent] (s.ch == 'p' || s.ch == 'P') && prefix != 'x' && arg1 == s.offset
+//@   at call error#3 assert [err-exponent-digits] ds & 1 == 0 && arg1 == s.offset
+//@   at call error#4 assert [err-hex-needs-p] prefix == 'x' && tok == token.FLOAT && arg1 == s.offset
+//@   at call errorf#3 assert [err-invalid-digit] tok == token.INT && invalid >= 0 && arg1 == invalid
+//@   at call error#5 assert [err-separator] digsep & 2 != 0 && i >= 0 && arg1 == offs + i
 //@
 //@ # updateLineInfo only feeds the line table, which is not modelled: its contract is ASSUMED (listed in evidence)
 //@ trusted (*Scanner).updateLineInfo
